@@ -11,6 +11,8 @@ import (
 
 	"servitor/config"
 	"servitor/ui"
+	"servitor/zverif/vgen"
+	"servitor/zverif/vorc"
 	"servitor/zverif/vrep"
 	"servitor/zverif/vsim"
 )
@@ -31,6 +33,7 @@ type Event struct {
 	H    int    `json:"h,omitempty"`
 	Text string `json:"text,omitempty"` // open: URL template or junk; feed: name; number: digits
 	End  int    `json:"end,omitempty"`  // number: the key that ends it ('.' or Enter or other)
+	Seq  []int  `json:"seq,omitempty"`  // seq: arbitrary bytes typed one after the other
 }
 
 type HistCase struct {
@@ -40,6 +43,7 @@ type HistCase struct {
 	Preload int        `json:"preload"`
 	Width   int        `json:"width"`
 	Height  int        `json:"height"`
+	HookMs  int        `json:"hook_ms,omitempty"` // > 0: the media hook runs this long and keys are not held back until it ends
 }
 
 const settle = 60 * time.Second
@@ -62,15 +66,19 @@ func modeName(mode int) string {
 	return fmt.Sprint(mode)
 }
 
-func compare(w *World, m *Model, snap ui.VerifSnap) error {
+func compare(w *World, m *Model, snap ui.VerifSnap, hookRunning bool) error {
 	if snap.HistLen != len(m.Hist) || snap.HistIndex != m.Index {
 		return fmt.Errorf("browser history is at page %d of %d, the keymap predicts page %d of %d", snap.HistIndex, snap.HistLen, m.Index, len(m.Hist))
 	}
-	if got := modeName(snap.Mode); got != m.Mode {
-		return fmt.Errorf("input mode is %s, the keymap predicts %s", got, m.Mode)
-	}
-	if snap.Buffer != m.Buffer {
-		return fmt.Errorf("input buffer is %q, the keymap predicts %q", snap.Buffer, m.Buffer)
+	if hookRunning && snap.Mode == ui.VerifOpening && m.Mode == "normal" {
+		// the media hook is still running: "Opening <link>…" is shown; it ends in normal mode with an empty buffer
+	} else {
+		if got := modeName(snap.Mode); got != m.Mode {
+			return fmt.Errorf("input mode is %s, the keymap predicts %s", got, m.Mode)
+		}
+		if snap.Buffer != m.Buffer {
+			return fmt.Errorf("input buffer is %q, the keymap predicts %q", snap.Buffer, m.Buffer)
+		}
 	}
 	page := m.Page()
 	vp := snap.Pages[snap.HistIndex]
@@ -95,6 +103,12 @@ func bytesOf(e Event, expand func(string) string) []byte {
 		return []byte(":feed " + e.Text + "\r")
 	case "number":
 		return append([]byte(e.Text), byte(e.End))
+	case "seq":
+		out := make([]byte, len(e.Seq))
+		for i, b := range e.Seq {
+			out[i] = byte(b)
+		}
+		return out
 	}
 	return nil
 }
@@ -115,6 +129,8 @@ func RunHistory(sim *vsim.Sim, c HistCase, opt Options) vrep.Result {
 	config.Parsed.Media.Hook = []string{"true"}
 	if opt.Hook != nil {
 		config.Parsed.Media.Hook = opt.Hook
+	} else if c.HookMs > 0 {
+		config.Parsed.Media.Hook = []string{"sleep", fmt.Sprintf("%d.%03d", c.HookMs/1000, c.HookMs%1000)}
 	}
 	lastFrame := ""
 	drain := func(d *Driver) error {
@@ -171,7 +187,7 @@ func RunHistory(sim *vsim.Sim, c HistCase, opt Options) vrep.Result {
 		m.Hist, m.Index = []*MPage{c.World.ResolveOpen(c.Start.Text, prefix)}, 0
 	}
 	if !opt.NoModel {
-		if err := compare(c.World, m, snap); err != nil {
+		if err := compare(c.World, m, snap, false); err != nil {
 			return vrep.Result{Err: fmt.Errorf("after start-up (%s %s): %v", c.Start.Kind, c.Start.Text, err)}
 		}
 	}
@@ -195,7 +211,11 @@ func RunHistory(sim *vsim.Sim, c HistCase, opt Options) vrep.Result {
 				trace = trace[len(trace)-12:]
 			}
 			histBefore := len(m.Hist)
-			snap, err := d.Key(b, settle)
+			keyFn := d.Key
+			if c.HookMs > 0 {
+				keyFn = d.KeyNoHookWait
+			}
+			snap, err := keyFn(b, settle)
 			if err != nil {
 				return vrep.Result{Classes: classes, Err: fmt.Errorf("event %d, key %q (last keys %v): %v", ei, b, trace, err)}
 			}
@@ -208,6 +228,9 @@ func RunHistory(sim *vsim.Sim, c HistCase, opt Options) vrep.Result {
 				}
 			}
 			if opt.NoModel {
+				if err := screenShowsState(d, snap, lastFrame); err != nil {
+					return vrep.Result{Classes: classes, Err: fmt.Errorf("event %d, after key %q (last keys %v): %v", ei, b, trace, err)}
+				}
 				switch snap.Mode {
 				case ui.VerifSelection:
 					usedSelection = true
@@ -219,10 +242,16 @@ func RunHistory(sim *vsim.Sim, c HistCase, opt Options) vrep.Result {
 				}
 				continue
 			}
+			if err := screenShowsState(d, snap, lastFrame); err != nil {
+				return vrep.Result{Classes: classes, Err: fmt.Errorf("event %d, after key %q (last keys %v): %v", ei, b, trace, err)}
+			}
 			alt := m.Step(b, prefix, expand)
-			if err := compare(c.World, m, snap); err != nil {
+			if err := pageIntegrity(c.World, m, d, snap); err != nil && alt == nil {
+				return vrep.Result{Classes: classes, Err: fmt.Errorf("event %d, after key %q (last keys %v): %v", ei, b, trace, err)}
+			}
+			if err := compare(c.World, m, snap, c.HookMs > 0); err != nil {
 				if alt != nil {
-					if err2 := compare(c.World, alt, snap); err2 == nil {
+					if err2 := compare(c.World, alt, snap, c.HookMs > 0); err2 == nil {
 						m = alt
 						soft++
 						continue
@@ -250,6 +279,22 @@ func RunHistory(sim *vsim.Sim, c HistCase, opt Options) vrep.Result {
 				walked = true
 			}
 		}
+	}
+	if c.HookMs > 0 {
+		// let the last hook finish: the history must end in the predicted settled state
+		snap, err := d.Settle(settle)
+		if err != nil {
+			return vrep.Result{Classes: classes, Err: fmt.Errorf("after the last key: %v", err)}
+		}
+		if err := drain(d); err != nil {
+			return vrep.Result{Classes: classes, Err: fmt.Errorf("after the last key: %v", err)}
+		}
+		if !opt.NoModel {
+			if err := compare(c.World, m, snap, false); err != nil {
+				return vrep.Result{Classes: classes, Err: fmt.Errorf("after the last key and the end of the media hook (last keys %v): %v", trace, err)}
+			}
+		}
+		classes = append(classes, "slow-hook")
 	}
 	if pagesOpened >= 1 {
 		classes = append(classes, "opened-further-pages")
@@ -299,6 +344,9 @@ func GenHistCase(t *rapid.T) HistCase {
 	} else {
 		c.Start = Event{Kind: "open", Text: rapid.SampledFrom(opens).Draw(t, "startopen")}
 	}
+	if rapid.IntRange(0, 3).Draw(t, "slowhook") == 0 {
+		c.HookMs = rapid.SampledFrom([]int{30, 80, 150}).Draw(t, "hookms")
+	}
 	n := rapid.IntRange(1, 60).Draw(t, "nevents")
 	for i := 0; i < n; i++ {
 		switch k := rapid.IntRange(0, 19).Draw(t, "eventkind"); {
@@ -322,6 +370,26 @@ func GenHistCase(t *rapid.T) HistCase {
 				name = rapid.SampledFrom(feedNames).Draw(t, "feedname")
 			}
 			c.Events = append(c.Events, Event{Kind: "feed", Text: name})
+		case k == 16:
+			// command line editing with arbitrary bytes (also >= 0x80, which are stored as two-byte characters) and Backspaces
+			seq := []int{':'}
+			for n := rapid.IntRange(0, 5).Draw(t, "njunk"); n > 0; n-- {
+				seq = append(seq, rapid.SampledFrom([]int{'a', ' ', 'x', 0x80, 0xff, 0xc3, 0xe9, 1, 9, '0', ':'}).Draw(t, "junkbyte"))
+			}
+			for n := rapid.IntRange(0, 4).Draw(t, "nbackspace"); n > 0; n-- {
+				seq = append(seq, 127)
+			}
+			seq = append(seq, rapid.SampledFrom([]int{27, '\r', 'j', 127}).Draw(t, "junkend"))
+			c.Events = append(c.Events, Event{Kind: "seq", Seq: seq})
+		case k == 17:
+			// stay in selection or command mode across a resize, then go on typing
+			enter := rapid.SampledFrom([][]int{{'1'}, {'2', '3'}, {':'}, {':', 'o', 'p'}}).Draw(t, "modekeys")
+			c.Events = append(c.Events, Event{Kind: "seq", Seq: enter})
+			c.Events = append(c.Events, Event{Kind: "resize", W: rapid.IntRange(1, 120).Draw(t, "mw"), H: rapid.IntRange(2, 50).Draw(t, "mh")})
+			if rapid.Bool().Draw(t, "sameWidth") {
+				c.Events[len(c.Events)-1].W = c.Width
+			}
+			c.Events = append(c.Events, Event{Kind: "seq", Seq: rapid.SampledFrom([][]int{{'4'}, {'x'}, {127}, {27}, {'\r'}}).Draw(t, "modeafter")})
 		default:
 			digits := rapid.SampledFrom([]string{"1", "1", "2", "2", "3", "0", "00", "01", "9", "12", "99999999999999999999", "18446744073709551617", "007"}).Draw(t, "digits")
 			end := rapid.SampledFrom([]int{'.', '.', '\r', '\r', 'j', 27, 127, ' ', 'x', ':'}).Draw(t, "numberend")
@@ -339,3 +407,53 @@ func sortStrings(s []string) {
 	}
 }
 
+
+
+// screenShowsState: once the UI has settled, the last frame handed to the terminal is the frame of the
+// current state (a stale frame must not be what the user is left looking at). One-off messages
+// ("Failed to …") are shown by design in a frame that the state does not keep.
+func screenShowsState(d *Driver, snap ui.VerifSnap, lastFrame string) error {
+	if lastFrame == "" || snap.Mode == ui.VerifOpening {
+		return nil
+	}
+	// a status line although the state is in normal mode: a one-off message
+	if snap.Mode == ui.VerifNormal {
+		if p, err := vorc.Parse(lastFrame); err == nil {
+			rows := p.Lines()
+			last := rows[len(rows)-1]
+			_, _, highlight, _ := vgen.Colours()
+			if len(last) > 0 && last[0].A.Bg == highlight {
+				return nil
+			}
+		}
+	}
+	if want := d.S.VerifView(); want != lastFrame {
+		return fmt.Errorf("the last frame on the screen is not the frame of the current state\nscreen:\n%s\nstate:\n%s", clipText(plain(lastFrame)), clipText(plain(want)))
+	}
+	return nil
+}
+
+func clipText(s string) string {
+	if len(s) > 900 {
+		return s[:900] + "…"
+	}
+	return s
+}
+
+// pageIntegrity: every loaded item of the current page is the item the world's ground truth puts at that position.
+func pageIntegrity(w *World, m *Model, d *Driver, snap ui.VerifSnap) error {
+	page := m.Page()
+	if page == nil || snap.HistIndex >= snap.HistLen || snap.HistIndex != m.Index || snap.HistLen != len(m.Hist) {
+		return nil // reported by compare
+	}
+	for pos, item := range d.S.VerifPageItems(snap.HistIndex) {
+		want, ok := page.At(pos)
+		if !ok {
+			return fmt.Errorf("the page holds %q at position %d, where the keymap's page has nothing", Identify(item), pos)
+		}
+		if got := Identify(item); got != w.Describe(want, true) {
+			return fmt.Errorf("the page holds %q at position %d, the world puts %q there", got, pos, w.Describe(want, true))
+		}
+	}
+	return nil
+}
